@@ -1,12 +1,21 @@
 #[macro_export]
 macro_rules! std_function {
-    ($location:expr => fn $name:ident ($($arg:ident:  Value $(:: $arg_type:ident)? $(<$ot:ty>)?),*) {$($body:tt)*}) => {
+    // `fn NAME[ctx](..)` additionally binds `ctx` to a `NativeContext`, with which
+    // the body can report a runtime error at one of its arguments
+    ($location:expr => fn $name:ident $([$ctx:ident])? ($($arg:ident:  Value $(:: $arg_type:ident)? $(<$ot:ty>)?),*) {$($body:tt)*}) => {
         $location.insert(
             String::from(stringify!($name)),
             (std::rc::Rc::new($crate::interpreter::NativeProcedure {
                 name: String::from(stringify!($name)),
                 arity: $crate::arity!($($arg)*),
                 callable: |_interpreter: &mut $crate::interpreter::Interpreter,  args: &[$crate::interpreter::Value], args_toks: &[miette::SourceSpan], _source: std::sync::Arc<str>| {
+                    $(
+                        let $ctx = $crate::standard_library::NativeContext {
+                            file_path: _interpreter.get_file_path(),
+                            source: _source.clone(),
+                            spans: args_toks,
+                        };
+                    )?
                     #[allow(unused_mut, unused_variables)]
                     let mut iter = args.into_iter();
                     #[allow(unused_mut)]
